@@ -242,19 +242,6 @@ fn run_list(c: &ListCase) -> Verdict {
     let d = lib!("Lut::bdd_complexity", count(&lists[0]));
     let s = lib!("LutN::bdd_complexity", count(&lists[1]));
     ensure!(d == s, "differs:bdd-list", "bdd_complexity of a list of {} functions of {} variables (drawn from {} base functions and their complements): Lut gives {} but Lut{} gives {}", c.len, c.n, c.base.len(), d, c.n, s);
-    // the count of a list made of copies / complements of the base functions is that of the base
-    let mut basel: Vec<crate::adapter::T> = Vec::new();
-    for b in &c.base {
-        if let Ok(x) = load(Fam::Dyn, b) {
-            basel.push(x);
-        }
-    }
-    if basel.len() == c.base.len() && c.len >= 8 * c.base.len() {
-        // (with >= 8x as many draws as base functions all of them occur with overwhelming probability;
-        // only the inequality is asserted, which holds regardless)
-        let b = lib!("Lut::bdd_complexity", count(&basel));
-        ensure!(d <= b, "bdd-list-exceeds-base", "bdd_complexity of {} copies/complements of {} base functions is {} but the base functions alone need {}", c.len, c.base.len(), d, b);
-    }
     let words = c.len * crate::model::words_for(c.n);
     pass(c.len >= 2 && !c.base[0].is_const(), vec![format!("n:{}", c.n), format!("words:{}", match words { 0..=999 => "<1e3", 1000..=65535 => "1e3..2^16", _ => ">=2^16" })])
 }
@@ -262,7 +249,7 @@ fn run_list(c: &ListCase) -> Verdict {
 pub fn def() -> PropDef {
     PropDef {
         id: "C10",
-        rule: "diff: cases = a history over a pool of 4 generated tables of one size N in 0..=12 (1..24 steps quick / 1..60 thorough) drawn from the whole common API: constructors with arguments, from_blocks, from_hex_string(any string), all_functions().nth(k), operators in every form, flip/swap/swap_adjacent (copying and in place), cofactors, from_cofactors, bit setters, canonizations (N<=7), hooked successor, round trips, value/get_bit, top_decomposition/unateness, the five text forms, num_vars/num_bits/num_blocks/blocks, cmp/partial_cmp/==/</<=/>/>=, bdd_complexity of 1..4 slots and of the empty list. The same history is interpreted on Lut and on the alias LutN; after every step the outcomes must be identical: same blocks, same perm/mask, same classification, same counts, same strings, same Ordering, same Ok/Err, panic on the same step. Non-trivial = a non-constant initial table and at least one step that is not a constructor. bddlist: bdd_complexity (the one operation taking arbitrarily many tables) on lists of 1 .. 2^17.6 words in total (log-uniform), drawn from 1..4 generated base functions and their complements: Lut and LutN must agree, and the count may not exceed that of the base functions. conv: for a generated Lut of n variables, LutN::try_from is Ok exactly for N = n (all N in 0..=12), preserves blocks and value, and Lut->LutN->Lut and LutN->Lut->LutN are identities. int: From<u8/u16/u32/u64> for Lut3..6 has value(m) = bit m, converting back gives the integer (also for a table built by another route and through the dynamic type); exhaustive for u8 and u16, generated for u32/u64.",
+        rule: "diff: cases = a history over a pool of 4 generated tables of one size N in 0..=12 (1..24 steps quick / 1..60 thorough) drawn from the whole common API: constructors with arguments, from_blocks, from_hex_string(any string), all_functions().nth(k), operators in every form, flip/swap/swap_adjacent (copying and in place), cofactors, from_cofactors, bit setters, canonizations (N<=7), hooked successor, round trips, value/get_bit, top_decomposition/unateness, the five text forms, num_vars/num_bits/num_blocks/blocks, cmp/partial_cmp/==/</<=/>/>=, bdd_complexity of 1..4 slots and of the empty list. The same history is interpreted on Lut and on the alias LutN; after every step the outcomes must be identical: same blocks, same perm/mask, same classification, same counts, same strings, same Ordering, same Ok/Err, panic on the same step. Non-trivial = a non-constant initial table and at least one step that is not a constructor. bddlist: bdd_complexity (the one operation taking arbitrarily many tables) on lists of 1 .. 2^17.6 words in total (log-uniform), drawn from 1..4 generated base functions and their complements: Lut and LutN must agree (what the count should be is C07's statement and is not judged here). conv: for a generated Lut of n variables, LutN::try_from is Ok exactly for N = n (all N in 0..=12), preserves blocks and value, and Lut->LutN->Lut and LutN->Lut->LutN are identities. int: From<u8/u16/u32/u64> for Lut3..6 has value(m) = bit m, converting back gives the integer (also for a table built by another route and through the dynamic type); exhaustive for u8 and u16, generated for u32/u64.",
         assumptions: vec![
             "Default::default() is excluded from the differential (Lut::default() has 0 variables by design)",
             "canonization at N = 8 is exercised for both families in C04/C05, at N >= 9 nowhere (minutes per call)",
